@@ -110,11 +110,30 @@ def run_property(prop, tier, seed, root):
         """A contract shared by several properties may scope which of its obligations belong to each."""
         if cfg.get("obligation_filter"):
             return re.search(cfg["obligation_filter"], oname) is not None
+        if cname in callee_names:
+            # a callee used through its contract: what callers rely on is its result, errors and frame
+            return re.search(r"/(thm|lemma)\.", oname) is None
         pr = by_name[cname].props
         if isinstance(pr, dict) and pr.get(prop):
             return re.search(pr[prop], oname) is not None
         return True
+    callee_names = set()
     jobs = runner.run_contracts(interp, contracts, select, timeout_ms=timeout_ms, prefix=f"{prop}/", ob_filter=cfg.get("obligation_filter"), tier=tier)
+    # modular closure: a function of this property that calls another repo function through that
+    # function's contract relies on it; the callee's contract is verified in this same check (result,
+    # errors, frame), transitively, so that no contract is used here without being discharged here
+    done = {c.qualname for c in selected}
+    frontier = jobs
+    while not cfg.get("select_all"):
+        used = {a[len("contract:"):] for j in frontier for a in j["assumptions"] if a.startswith("contract:")}
+        used = {u for u in used if u in by_name and u not in done and by_name[u].instances}
+        if not used:
+            break
+        callee_names |= used
+        done |= used
+        frontier = runner.run_contracts(interp, contracts, lambda c: c.qualname in used, timeout_ms=timeout_ms, prefix=f"{prop}/", tier=tier)
+        jobs = jobs + frontier
+    selected = selected + [by_name[u] for u in sorted(callee_names)]
     pb = None
     findings, undecided, errors = [], [], []
     counts = {"obligations": 0, "discharged": 0, "refuted": 0, "undecided": 0}
